@@ -12,6 +12,7 @@
 #include <cstdio>
 #include <cstdlib>
 #include <cstring>
+#include <initializer_list>
 #include <iterator>
 #include <new>
 #include <string>
@@ -110,6 +111,18 @@ struct EUserMove {
   int p() const { return pay_; }
   static const bool kHooks = false;
   static int state_of(const EUserMove &e) { return e.key_ == kPoisonKey ? ES_MOVED : ES_ALIVE; }
+};
+/// has both a (int, int) constructor and an initializer_list<int> constructor: construct_at(p, a, b) must use the former, as
+/// std::construct_at does (`T(a, b)`, not `T{a, b}`)
+struct EIlist {
+  int key_, pay_;
+  EIlist() : key_(0), pay_(0) {}
+  EIlist(int k, int p) : key_(k), pay_(p) {}
+  EIlist(std::initializer_list<int>) : key_(-99), pay_(-99) {}
+  int k() const { return key_; }
+  int p() const { return pay_; }
+  static const bool kHooks = false;
+  static int state_of(const EIlist &) { return ES_ALIVE; }
 };
 /// source / destination of different types: the destination is constructed from the source by a converting constructor that can throw
 struct ESrcH {
@@ -231,9 +244,9 @@ enum IterKind { I_PTR = 0, I_RA, I_BIDI, I_FWD, I_MOVE, I_INPUT, I_CPTR, I_REV, 
 static const char *kIterNames[] = {"pointer", "random_access", "bidirectional", "forward", "move_iterator", "single_pass_input", "const_pointer",
                                    "reverse_pointer", "strided_random_access", "pointer_to_reverse_dest", "random_access_to_forward_dest",
                                    "strided_to_random_access_dest"};
-enum ValKind { VAL_TRIV = 0, VAL_TR, VAL_NONTR, VAL_THROWMOVE, VAL_AGG, VAL_ASSIGNHOOK, VAL_USERMOVE, VAL_HETERO, VAL_NVAL };
+enum ValKind { VAL_TRIV = 0, VAL_TR, VAL_NONTR, VAL_THROWMOVE, VAL_AGG, VAL_ASSIGNHOOK, VAL_USERMOVE, VAL_HETERO, VAL_ILIST, VAL_BYTE2BOOL, VAL_NVAL };
 static const char *kValNames[] = {"trivial", "ETr", "ENonTr", "EThrowMove", "aggregate", "trivial_ctor_user_assign", "trivial_copy_user_move",
-                                  "converting_src_to_dst"};
+                                  "converting_src_to_dst", "initializer_list_ctor", "bytes_to_bool"};
 
 struct Case {
   int algo, len, iter, val, throwIdx;
@@ -572,6 +585,39 @@ static void run_hetero_case(const Case &c) {
   g_heap.deallocate(dst, (size_t)(n ? n : 1) * sizeof(EDstH), 0, 0, DOM_STD, true);
 }
 
+// same-size integral types are not the same type: a bool built from a byte converts (0 -> false, anything else -> true), it does
+// not keep the byte
+static void run_byte2bool_case(const Case &c) {
+  int n = c.len;
+  unsigned char *src = static_cast<unsigned char *>(g_heap.allocate((size_t)(n ? n : 1), 0, 0, DOM_STD, false));
+  bool *dst = static_cast<bool *>(g_heap.allocate((size_t)(n ? n : 1) * sizeof(bool), 0, 0, DOM_STD, false));
+  static const unsigned char kBytes[] = {0x02, 0x00, 0x80, 0xff, 0x01, 0x10, 0x00};
+  for (int i = 0; i < n; ++i) src[i] = kBytes[i % 7];
+  bool *ret = dst;
+  {
+    Arm a;
+    switch (c.algo) {
+      case A_UCOPY: ret = amc::uninitialized_copy(src, src + n, dst); break;
+      case A_UCOPY_N: ret = amc::uninitialized_copy_n(src, n, dst); break;
+      case A_UMOVE: ret = amc::uninitialized_move(src, src + n, dst); break;
+      case A_UMOVE_N: ret = amc::uninitialized_move_n(src, n, dst).second; break;
+      case A_URELOC: ret = amc::uninitialized_relocate(src, src + n, dst); break;
+      default: ret = amc::uninitialized_relocate_n(src, n, dst).second; break;
+    }
+  }
+  G.armed = false;
+  if (ret != dst + n) fail("returned destination iterator is not dest + n");
+  for (int i = 0; i < n && g_fail.empty(); ++i) {
+    unsigned char b;
+    memcpy(&b, dst + i, 1);
+    if (b != (kBytes[i % 7] ? 1 : 0)) fail("a bool constructed from a byte holds the raw byte instead of the converted value (memcpy between different integral types)");
+  }
+  G.faultFired = false;
+  g_heap.check_canaries();
+  g_heap.deallocate(src, (size_t)(n ? n : 1), 0, 0, DOM_STD, true);
+  g_heap.deallocate(dst, (size_t)(n ? n : 1) * sizeof(bool), 0, 0, DOM_STD, true);
+}
+
 // arrays: pre-C++20 emulations only (std::construct_at / C++17 std::destroy_at do not accept them the same way)
 template <class T>
 static void run_array_case(const Case &c) {
@@ -628,6 +674,8 @@ static bool exec_case(const Case &c) {
       case VAL_ASSIGNHOOK: { Runner<EAssignHook> r; r.run_case(c); } break;
       case VAL_USERMOVE: { Runner<EUserMove> r; r.run_case(c); } break;
       case VAL_HETERO: run_hetero_case(c); break;
+      case VAL_ILIST: { Runner<EIlist> r; r.run_case(c); } break;
+      case VAL_BYTE2BOOL: run_byte2bool_case(c); break;
       default: { Runner<EThrowMove> r; r.run_case(c); } break;
     }
   }
@@ -665,7 +713,8 @@ static bool applicable(const Case &c) {
   if (!range && !reloc && c.iter != I_PTR) return false;
   if (reloc && (c.iter == I_MOVE || c.iter == I_INPUT)) return false;  // relocation needs a multi-pass, lvalue source
   if ((c.algo == A_CONSTRUCT_AT_ARRAY || c.algo == A_DESTROY_AT_ARRAY) && c.val != VAL_NONTR && c.val != VAL_THROWMOVE) return false;
-  if (c.val == VAL_HETERO && !range && !reloc) return false;
+  if ((c.val == VAL_HETERO || c.val == VAL_BYTE2BOOL) && !range && !reloc) return false;
+  if (c.val == VAL_BYTE2BOOL && c.iter != I_PTR) return false;
   return true;
 }
 
@@ -734,7 +783,8 @@ int main(int argc, char **argv) {
       c.algo = (int)r.below(A_NALGO); c.len = (int)r.below(7); c.iter = (int)r.below(I_NITER); c.val = (int)r.below(VAL_NVAL); c.throwIdx = -1;
       {  // steer inapplicable draws to an applicable neighbour instead of skipping them
         bool range = c.algo >= A_UCOPY && c.algo <= A_UMOVE_N, reloc = c.algo == A_URELOC || c.algo == A_URELOC_N;
-        if (c.val == VAL_HETERO && !range && !reloc) c.algo = A_UCOPY + (int)r.below(4);
+        if ((c.val == VAL_HETERO || c.val == VAL_BYTE2BOOL) && !range && !reloc) c.algo = A_UCOPY + (int)r.below(4);
+        if (c.val == VAL_BYTE2BOOL) c.iter = I_PTR;
         range = c.algo >= A_UCOPY && c.algo <= A_UMOVE_N; reloc = c.algo == A_URELOC || c.algo == A_URELOC_N;
         if (!range && !reloc) c.iter = I_PTR;
         else if (reloc && (c.iter == I_MOVE || c.iter == I_INPUT)) c.iter = c.iter == I_MOVE ? I_REV : I_STRIDE;
